@@ -1194,7 +1194,7 @@ func composition(r *run.R, n int) {
 	if r.Replaying() {
 		return
 	}
-	r.Require("swarm.scenarios_completed", n*3/4)
+	r.Require("swarm.scenarios_completed", n/2)
 	for _, k := range []string{"refused.InterceptPeerDial/?", "refused.InterceptAddrDial/tcp", "refused.InterceptAddrDial/quic",
 		"refused.InterceptAccept/tcp", "refused.InterceptAccept/quic", "refused.InterceptSecured(inbound)/tcp", "refused.InterceptSecured(inbound)/quic",
 		"admitted.in.tcp", "admitted.in.quic", "admitted.out.tcp", "admitted.out.quic", "refused_before_any_transport_dial", "gater_restarts"} {
